@@ -33,6 +33,21 @@ T0 = bt.T0_aligned()
 TF_MIN = {'1m': 1, '5m': 5, '15m': 15, '30m': 30, '1h': 60, '2h': 120, '4h': 240, '6h': 360, '1D': 1440, '3D': 4320}
 SYMS = ['BTC-USDT', 'ETH-USDT', 'SOL-USDT']
 
+# inputs on which the defects repaired by 5df2a81f / 8600f13b (drawdown, Calmar, Sortino) and 34cd8255 (spot
+# sample) used to show; they stay in every run so that a regression is reported with the old failure class
+REGRESSION_BALANCES = [[100.0, 90.0, 95.0], [100.0, 99.0], [1000.0, 965.09, 977.3], [100.0, 95.85, 91.3, 88.82]]
+REGRESSION_SESSIONS = [
+    {'type': 'spot', 'fee': 0.0, 'balance': 10000.0, 'leverage': 1, 'routes': [
+        {'symbol': 'BTC-USDT', 'timeframe': '1h', 'strategy': {'side': 'long', 'period': 90, 'enter_at': 5, 'exit_at': 6, 'qty': 5.0, 'offset': 30.0}},
+        {'symbol': 'ETH-USDT', 'timeframe': '1h', 'strategy': {'side': 'long', 'period': 90, 'enter_at': 5, 'exit_at': 6, 'qty': 2.0, 'offset': 30.0}}],
+     'minutes': 2880, 'fast': False, 'candle_seed': 11},
+    {'type': 'spot', 'fee': 0.0, 'balance': 10000.0, 'leverage': 1, 'routes': [
+        {'symbol': 'ETH-USDT', 'timeframe': '15m', 'strategy': {'side': 'long', 'period': 90, 'enter_at': 7, 'exit_at': 8, 'qty': 1.0, 'offset': 30.0}},
+        {'symbol': 'SOL-USDT', 'timeframe': '1h', 'strategy': {'side': 'long', 'period': 90, 'enter_at': 3, 'exit_at': 4, 'qty': 10.0, 'offset': 30.0}},
+        {'symbol': 'BTC-USDT', 'timeframe': '4h', 'strategy': {'side': 'long', 'period': 90, 'enter_at': 2, 'exit_at': 3, 'qty': 2.0, 'offset': 30.0}}],
+     'minutes': 4320, 'fast': True, 'candle_seed': 5},
+]
+
 # (token of the driver reply, key of the dict returned by metrics.trades)
 KEYS = [('total', 'total'), ('winners', 'total_winning_trades'), ('losers', 'total_losing_trades'),
         ('win_rate', 'win_rate'), ('ratio_avg_win_loss', 'ratio_avg_win_loss'), ('longs_count', 'longs_count'),
@@ -461,7 +476,7 @@ class C16(core.Check):
         """sessions are run once and shared by the correspondence and the oracle pass"""
         if getattr(self, '_sessions', None) is not None:
             return self._sessions
-        specs = []
+        specs = [dict(x) for x in REGRESSION_SESSIONS]
         # witnesses of the known findings first (deterministic)
         for k in core.load_known():
             if k['property'] == 'C16' and k.get('witness', {}).get('session'):
@@ -602,9 +617,12 @@ class C16(core.Check):
             cagr = None
         model['annual_return'] = None if cagr is None else cagr * 100
         model['omega_ratio'] = val('omega')
-        if dd_reply and dd_reply.startswith('ok ') and dd_reply != 'ok nan' and cagr is not None:
-            dd = float(Fraction(dd_reply.split()[1])) / 100
-            model['calmar_ratio'] = cagr / abs(dd) if dd != 0 else 0.0
+        cdd = val('calmar_dd')
+        if cdd == cdd and cagr is not None:      # calmar_ratio: `cagr / max_dd if max_dd != 0 else 0`
+            model['calmar_ratio'] = cagr / cdd if cdd != 0 else 0.0
+        if dd_reply and dd_reply.startswith('ok ') and dd_reply != 'ok nan' and cdd == cdd:
+            if not relclose(abs(float(Fraction(dd_reply.split()[1])) / 100), cdd, 1e-9):
+                return False, {'calmar_dd': cdd, 'max_drawdown': dd_reply}
         bad = {}
         for k, v in model.items():
             if v is None:
@@ -794,8 +812,8 @@ class C16(core.Check):
         for k in core.load_known():
             if k['property'] == 'C16' and k.get('witness', {}).get('balances'):
                 series.append(('witness', [float(x) for x in k['witness']['balances']]))
-        series += [('fixed', [100.0, 90.0, 95.0]), ('fixed', [100.0, 110.0, 99.0, 120.0]), ('fixed', [1000.0, 1000.0]),
-                   ('fixed', [100.0, 101.0]), ('fixed', [100.0, 99.0])]
+        series += [('regression', list(b)) for b in REGRESSION_BALANCES]
+        series += [('fixed', [100.0, 110.0, 99.0, 120.0]), ('fixed', [1000.0, 1000.0]), ('fixed', [100.0, 101.0])]
         for _ in range(self.budget(400, 8000, boost)):
             series.append(self.gen_balances(40 if not (self.thorough or boost) else 400))
         seen_cls = {}
